@@ -6,9 +6,12 @@ sys.path.insert(0, ROOT); sys.path.insert(0, '/repo')
 from engine.runner import load_check
 props = [json.loads(l)['id'] for l in open(os.path.join(ROOT, 'properties.jsonl'))]
 checks, na = [], []
+CLAIMED = open(os.path.join(ROOT, 'claimed.txt')).read().split()
 NA_REASONS = json.load(open(os.path.join(ROOT, 'not_applicable.json'))) if os.path.exists(os.path.join(ROOT, 'not_applicable.json')) else {}
 for pid in props:
-    fn = [f for f in os.listdir(os.path.join(ROOT, 'checks')) if f.startswith(pid.lower() + '_')]
+    fn = sorted(f for f in os.listdir(os.path.join(ROOT, 'checks')) if f.startswith(pid.lower() + '_'))
+    if pid not in CLAIMED:
+        fn = []
     if not fn:
         na.append({'property_id': pid, 'reason': NA_REASONS.get(pid, 'check not built yet in this session (planned: see DESIGN.md section 7); not claimed until it exists')})
         continue
